@@ -139,3 +139,193 @@ Proof.
   assert (j <> 0) by (apply Hnz; left; reflexivity).
   unfold exempt. destruct (j =? 0) eqn:E; [lia | reflexivity].
 Qed.
+
+(* ------------------------------------------------------------------ simulation for the jump fragment *)
+(* statements whose effect involves line numbers only through jumps: headers, PRINT, LET, GOTO, GOSUB, RETURN [n],
+   IF..THEN [n] (with its ELSE search), :ELSE [n], ON..GOTO/GOSUB, END *)
+Definition frag (s : stmt) : bool :=
+  match s with
+  | SLine _ | SEndProg | SPrint _ | SLet _ _ | SGoto _ | SGosub _ | SReturn _ | SIf _ _ | SElse _ | SOn _ _ _ | SEnd => true
+  | _ => false
+  end.
+Definition ren_out (f : Z -> Z) (o : outcome) : outcome :=
+  match o with Stopped c l => Stopped c (g65535 f l) | _ => o end.
+(* no error handler installed, none running *)
+Definition quiet (d : dstate) : Prop := onerr d = 0 /\ resume_at d = None.
+
+Lemma skipn_map' {A B} (g : A -> B) n l : skipn n (map g l) = map g (skipn n l).
+Proof. revert l; induction n as [|n IH]; intros [|x l]; cbn; auto. Qed.
+Lemma nth_error_map' {A B} (g : A -> B) l n : nth_error (map g l) n = option_map g (nth_error l n).
+Proof. revert l; induction n as [|n IH]; intros [|x l]; cbn; auto. Qed.
+Lemma In_skipn {A} (x : A) n l : In x (skipn n l) -> In x l.
+Proof. revert l; induction n as [|n IH]; intros [|y l] H; cbn in *; auto. Qed.
+
+Definition ren_else (f : Z -> Z) (t : else_target) : else_target :=
+  match t with ElseAt k j => ElseAt k (option_map f j) | NoElse k => NoElse k end.
+Lemma find_else_rename f l : forall base nest,
+  find_else_from (rename_lines f l) base nest = ren_else f (find_else_from l base nest).
+Proof.
+  induction l as [|s r IH]; intros base nest; [reflexivity|]. unfold rename_lines in *. cbn [map].
+  destruct s; cbn [rename_stmt find_else_from]; try apply IH; try reflexivity.
+  - destruct n; cbn [find_else_from]; apply IH.
+  - destruct j; cbn [find_else_from]; apply IH.
+  - destruct j; cbn [find_else_from]; (destruct nest; [reflexivity | apply IH]).
+  - destruct r0; cbn [find_else_from]; apply IH.
+Qed.
+Lemma find_else_in l : forall base nest k n, find_else_from l base nest = ElseAt k (Some n) -> In (SElse (Some n)) l.
+Proof.
+  induction l as [|s r IH]; intros base nest k n H; [discriminate|].
+  destruct s; cbn [find_else_from] in H; try discriminate; try (right; eapply IH; exact H).
+  destruct nest; [inversion H; left; reflexivity | right; eapply IH; exact H].
+Qed.
+
+Section Sim.
+Variables (f : Z -> Z) (code : list stmt).
+Hypothesis Hinj : forall a b, In a (flow_lines code) -> In b (flow_lines code) -> f a = f b -> a = b.
+Hypothesis Hclosed : forall s n, In s code -> In n (targets_of s) -> In n (flow_lines code).
+Hypothesis Hfrag : forall s, In s code -> frag s = true.
+Hypothesis Hlt : forall m, In m (flow_lines code) -> m <> 65535.
+
+Lemma pjump_rename st i n k : In n (flow_lines code) ->
+  pjump (rename_lines f code) st i (f n) k = pjump code st i n k.
+Proof.
+  intros Hn. unfold pjump, find_line. rewrite find_line_rename; [reflexivity|].
+  intros m Hm E. apply Hinj; assumption.
+Qed.
+
+Lemma pstep_rename st : resume_at (ds st) = None -> pstep (rename_lines f code) st = pstep code st.
+Proof.
+  intros Hq. unfold pstep. unfold rename_lines at 1. rewrite nth_error_map'.
+  destruct (nth_error code (pc st)) as [s|] eqn:E; [|reflexivity]. cbn [option_map].
+  assert (Hin : In s code) by (eapply nth_error_In; exact E).
+  pose proof (Hfrag s Hin) as Hf. pose proof (Hclosed s) as Hc.
+  destruct s; cbn [frag] in Hf; try discriminate; cbn [rename_stmt].
+  - reflexivity.
+  - rewrite Hq. reflexivity.
+  - reflexivity.
+  - reflexivity.
+  - apply pjump_rename. apply Hc; [exact Hin | left; reflexivity].
+  - destruct n as [n|]; cbn [rename_stmt]; [|reflexivity].
+    destruct (gosubs st); [reflexivity|]. apply pjump_rename. apply Hc; [exact Hin | left; reflexivity].
+  - apply pjump_rename. apply Hc; [exact Hin | left; reflexivity].
+  - (* IF *)
+    assert (Helse : find_else_from (skipn (S (pc st)) (rename_lines f code)) (S (pc st)) 0
+                    = ren_else f (find_else_from (skipn (S (pc st)) code) (S (pc st)) 0)).
+    { unfold rename_lines. rewrite skipn_map'. apply find_else_rename. }
+    destruct j as [n|]; cbn [rename_stmt]; unfold pwith_val; destruct (eval (ds st) c) as [z| |]; try reflexivity;
+      destruct (negb (z =? 0)); try reflexivity; try (apply pjump_rename; apply Hc; [exact Hin | left; reflexivity]);
+      rewrite Helse; destruct (find_else_from (skipn (S (pc st)) code) (S (pc st)) 0) as [k [n'|]|k] eqn:Ee; cbn [ren_else option_map];
+      try reflexivity; apply pjump_rename; apply (Hclosed (SElse (Some n')) n'); [|left; reflexivity| |left; reflexivity];
+      eapply In_skipn; eapply find_else_in; exact Ee.
+  - (* :ELSE *)
+    assert (He : eol (rename_lines f code) (S (pc st)) = eol code (S (pc st))).
+    { unfold eol, rename_lines. rewrite skipn_map'. apply eol_rename. }
+    destruct j; cbn [rename_stmt]; rewrite He; reflexivity.
+  - (* ON *)
+    unfold pwith_int, pwith_val. destruct (eval (ds st) e) as [z| |]; try reflexivity.
+    destruct (in16 z); [|reflexivity].
+    destruct (negb ((flow_on_lo <=? z) && (z <=? flow_on_hi))); [reflexivity|]. rewrite map_length.
+    destruct ((1 <=? z) && (z <=? Z.of_nat (length ns))) eqn:Er; [|reflexivity].
+    apply andb_true_iff in Er as [E1 E2]. apply Z.leb_le in E1, E2.
+    assert (Hidx : (Z.to_nat (z - 1) < length ns)%nat) by lia.
+    rewrite (nth_indep (map f ns) 0 (f 0)) by (rewrite map_length; exact Hidx). rewrite map_nth.
+    apply pjump_rename. apply Hc; [exact Hin | cbn [targets_of]; apply nth_In; exact Hidx].
+  - reflexivity.
+Qed.
+
+Definition same_regs (st st' : state) : Prop :=
+  onerr (ds st') = onerr (ds st) /\ resume_at (ds st') = resume_at (ds st).
+
+Lemma pstep_regs st : resume_at (ds st) = None ->
+  match pstep code st with
+  | PGo st' _ => same_regs st st'
+  | PRaise st' _ _ => same_regs st st'
+  | PHalt o => ren_out f o = o
+  end.
+Proof.
+  intros Hq. unfold pstep. destruct (nth_error code (pc st)) as [s|] eqn:E; [|reflexivity].
+  assert (Hin : In s code) by (eapply nth_error_In; exact E). pose proof (Hfrag s Hin) as Hf.
+  assert (Hj : forall st1 n (k : nat -> pres), same_regs st st1 ->
+            (forall j, match k j with PGo st' _ => same_regs st st' | PRaise st' _ _ => same_regs st st' | PHalt o => ren_out f o = o end) ->
+            match pjump code st1 (pc st) n k with PGo st' _ => same_regs st st' | PRaise st' _ _ => same_regs st st' | PHalt o => ren_out f o = o end).
+  { intros st1 n k H1 Hk. unfold pjump. destruct (find_line code n); [apply Hk | exact H1]. }
+  assert (Hrefl : same_regs st st) by (split; reflexivity).
+  destruct s; cbn [frag] in Hf; try discriminate.
+  - exact Hrefl.
+  - rewrite Hq. reflexivity.
+  - destruct (soft_div (ds st) e); [exact Hrefl|]. unfold pwith_val. destruct (eval (ds st) e); [exact Hrefl | exact Hrefl | reflexivity].
+  - unfold pwith_val. destruct (eval (ds st) e) as [z| |]; [|exact Hrefl | reflexivity].
+    destruct (in16 z); [split; reflexivity | exact Hrefl].
+  - apply Hj; [exact Hrefl | intros j; split; reflexivity].
+  - destruct (gosubs st); [exact Hrefl|]. destruct n; [apply Hj; [split; reflexivity | intros j; split; reflexivity] | split; reflexivity].
+  - apply Hj; [exact Hrefl | intros j; exact Hrefl].
+  - unfold pwith_val. destruct (eval (ds st) c) as [z| |]; [|exact Hrefl | reflexivity].
+    destruct (negb (z =? 0)).
+    + destruct j; [apply Hj; [exact Hrefl | intros j0; exact Hrefl] | exact Hrefl].
+    + destruct (find_else_from (skipn (S (pc st)) code) (S (pc st)) 0) as [k [n'|]|k];
+        [apply Hj; [exact Hrefl | intros j0; exact Hrefl] | exact Hrefl | exact Hrefl].
+  - exact Hrefl.
+  - unfold pwith_int, pwith_val. destruct (eval (ds st) e) as [z| |]; [|exact Hrefl | reflexivity].
+    destruct (in16 z); [|exact Hrefl].
+    destruct (negb ((flow_on_lo <=? z) && (z <=? flow_on_hi))); [exact Hrefl|].
+    destruct ((1 <=? z) && (z <=? Z.of_nat (length ns))); [|exact Hrefl].
+    apply Hj; [exact Hrefl | intros j; destruct gosub; split; reflexivity].
+  - reflexivity.
+Qed.
+
+Lemma step_rename st : quiet (ds st) ->
+  step (rename_lines f code) st
+  = match step code st with Go st' out => Go st' out | Halt o => Halt (ren_out f o) end
+  /\ match step code st with Go st' _ => quiet (ds st') | Halt _ => True end.
+Proof.
+  intros [Ho Hr]. unfold step. rewrite (pstep_rename st Hr). pose proof (pstep_regs st Hr) as Hregs.
+  destruct (pstep code st) as [st' out|o|st' c epos].
+  - split; [reflexivity|]. destruct Hregs as [H1 H2]. split; congruence.
+  - split; [rewrite Hregs; reflexivity | exact I].
+  - destruct Hregs as [H1 H2]. unfold trap. rewrite H1, Ho. cbn [Z.eqb negb andb]. split; [|exact I].
+    cbn [ren_out]. unfold line_of. rewrite <- (line_of_rename f code epos 65535 Hlt). reflexivity.
+Qed.
+
+Theorem run_rename fuel : forall st, quiet (ds st) ->
+  run (rename_lines f code) fuel st = (fst (run code fuel st), ren_out f (snd (run code fuel st))).
+Proof.
+  induction fuel as [|fuel IH]; intros st Hq; [reflexivity|]. cbn [run].
+  destruct (step_rename st Hq) as [Hs Hq']. rewrite Hs.
+  destruct (step code st) as [st' out|o]; [|reflexivity].
+  rewrite (IH st' Hq'). destruct (run code fuel st') as [t o]. reflexivity.
+Qed.
+End Sim.
+
+(* RUN of the renamed program = RUN of the original, modulo the line map in the final "in line" *)
+Theorem run_program_rename f code fuel :
+  (forall a b, In a (flow_lines code) -> In b (flow_lines code) -> f a = f b -> a = b) ->
+  (forall s n, In s code -> In n (targets_of s) -> In n (flow_lines code)) ->
+  (forall s, In s code -> frag s = true) ->
+  (forall m, In m (flow_lines code) -> m <> 65535) ->
+  run_program (rename_lines f code) fuel
+  = (fst (run_program code fuel), ren_out f (snd (run_program code fuel))).
+Proof.
+  intros H1 H2 H3 H4. unfold run_program. apply run_rename; try assumption. split; reflexivity.
+Qed.
+
+(* accepted RENUM new,start,step (partial or not): for a flow program over the lines of ls - jumps from kept lines
+   into the renumbered range and back included - running the renumbered program is running the original *)
+Theorem renum_flow_simulation c s ls tail new start step code fuel :
+  cfg_ok c -> abs_ok c s ls tail -> tail_ok tail -> Forall (fun l : line => fst l < 65535) ls ->
+  0 <= new -> 0 <= start <= 65535 -> accepted ls new start step ->
+  (forall n, In n (flow_lines code) -> In n (nums ls)) ->
+  (forall st n, In st code -> In n (targets_of st) -> In n (flow_lines code)) ->
+  (forall st, In st code -> frag st = true) ->
+  let f := new_number (o2n_of (rn_part start ls) new step) in
+  run_program (rename_lines f code) fuel = (fst (run_program code fuel), ren_out f (snd (run_program code fuel))).
+Proof.
+  intros Hc Ha Ht Hl Hn Hs Hacc Hsub Hclosed Hfrag f.
+  pose proof (new_number_increasing c s ls tail new start step Hc Ha Ht Hl Hn Hs Hacc) as Hinc.
+  apply run_program_rename; try assumption.
+  - intros a b Ha' Hb' E. apply Hsub in Ha', Hb'.
+    destruct (Z.lt_trichotomy a b) as [H|[H|H]]; [|exact H|].
+    + specialize (Hinc a b Ha' Hb' H). fold f in Hinc. lia.
+    + specialize (Hinc b a Hb' Ha' H). fold f in Hinc. lia.
+  - intros m Hm. apply Hsub in Hm. unfold nums in Hm. apply in_map_iff in Hm as [l [E Hin]].
+    rewrite Forall_forall in Hl. specialize (Hl l Hin). lia.
+Qed.
